@@ -14,6 +14,16 @@ pub fn edge_scalar<F: PrimeField>(rng: &mut ChaChaRng) -> F {
         3 => F::from(u64::MAX) + F::from(rng.gen_range(1u64..5)),
         4 => -F::from(rng.gen_range(1u64..1000)),
         5 => F::from(rng.gen_range(0u64..10)),
+        6 => {
+            // limb structure: each 64-bit limb independently zero, small, all-ones or random (reduced mod r)
+            let mut v = F::zero();
+            let two64 = F::from(u64::MAX) + F::one();
+            for _ in 0..4 {
+                let limb: u64 = match rng.gen_range(0..4) { 0 => 0, 1 => rng.gen_range(1..8), 2 => u64::MAX, _ => rng.gen() };
+                v = v * two64 + F::from(limb);
+            }
+            v
+        }
         _ => F::rand(rng),
     }
 }
@@ -156,7 +166,10 @@ pub fn gen_program<F: PrimeField>(rng: &mut ChaChaRng, sh: &Shape) -> GenProg<F>
             20..=39 => {
                 let miss = if m.pending.is_some() { 3 } else { 8 };
                 if sh.allow_missing && rng.gen_range(0..miss) == 0 {
+                    // the prover's run ends here (the call returns MissingAssignment): nothing after it may be
+                    // referenced by the closures registered so far, so the first phase ends with this call
                     prog.push(COp::Alloc(None));
+                    break;
                 } else {
                     let x: F = edge_scalar(rng);
                     match m.pending {
@@ -178,6 +191,7 @@ pub fn gen_program<F: PrimeField>(rng: &mut ChaChaRng, sh: &Shape) -> GenProg<F>
             40..=54 => {
                 if sh.allow_missing && rng.gen_range(0..6) == 0 {
                     prog.push(COp::AllocMul(None));
+                    break;
                 } else {
                     let x: F = edge_scalar(rng);
                     let y: F = edge_scalar(rng);
